@@ -401,6 +401,15 @@ pub fn gen_c15(g: &mut Gen, tier: &str) {
     } } }
     for s in [0i128, 1, 86_399, 86_400, 86_401, (1 << 31), U32M] { g.push(true, Input::new("time_ctor", vec![1, s])); }
     for x in [0i128, 1, NPD - 1, NPD, NPD + 1, (1i128 << 63), u64::MAX as i128] { g.push(true, Input::new("time_ctor", vec![2, x])); }
+    // arguments that alias an in-range value when an inner conversion narrows them: k * 2^32 (and 2^16, 2^8) of the unit the
+    // code converts to (nanoseconds, seconds, minutes, hours), plus a small in-range remainder
+    for k in 1..=4i128 { for unit in [1i128, NPS, 60 * NPS, 3_600 * NPS] { for r in [0i128, 1, 86_399 * NPS + 999_999_999, 43_200 * NPS] {
+        let x = k * (1i128 << 32) * unit + r; if x <= u64::MAX as i128 { g.push(true, Input::new("time_ctor", vec![2, x])); }
+    } } }
+    for k in 1..=3i128 { for sh in [8u32, 16, 31] { for r in [0i128, 1, 59, 3_599, 86_399] {
+        let x = k * (1i128 << sh) * 86_400 + r; if x <= U32M { g.push(true, Input::new("time_ctor", vec![1, x])); }
+        let y = (k << sh) + r % 60; if y <= U32M { g.push(true, Input::new("time_ctor", vec![0, y % (1 << 32), r % 60, r % 60])); g.push(true, Input::new("time_ctor", vec![0, r % 24, y, r % 60])); g.push(true, Input::new("time_ctor", vec![0, r % 24, r % 60, y])); }
+    } } }
     let bh: [i128; 9] = [0, 1, 22, 23, 24, 59, 60, (1 << 31), U32M];
     for h in bh { for m in [0i128, 59, 60, U32M] { for s in [0i128, 59, 60, U32M] {
         g.push(true, Input::new("dt_from_hms", vec![h, m, s]));
